@@ -38,10 +38,10 @@ type simState struct {
 	seed      uint64
 	nextID    uint64
 	shutdown  bool
-	actors    [512]*actor
+	actors    [2048]*actor
 	slotGoid  [tableSize]uint64
 	slotActor [tableSize]*actor
-	events    [1 << 14]event
+	events    [1 << 16]event
 	nEvents   int
 	switches  uint64 // hash of the sequence of (actor) context switches
 	lastActor uint64
@@ -116,7 +116,7 @@ func self() *actor {
 func spawn() uint64 {
 	sim.nextID++
 	id := sim.nextID
-	if id >= 512 {
+	if id >= 2048 {
 		panic("worldcat: too many actors in one run")
 	}
 	r := core.NewRand(core.Mix(sim.seed, id))
